@@ -3,6 +3,7 @@ from collections import abc, UserString
 from difflib import get_close_matches
 from datetime import date
 from inspect import isabstract, isclass
+import re
 import typing
 from typing import (
         Any, cast, Dict, Iterable, Mapping, MutableMapping, MutableSequence,
@@ -32,6 +33,25 @@ scalar_type_to_tag = {
 
 
 ScalarType = Union[str, int, float, bool, None]
+
+
+yaml12_float_regex = re.compile(
+        r'^(?:'
+        # sign
+        r'[-+]?'
+        # content
+        r'(?:'
+        # float numbers
+        r'  (?:[0-9]+[eE][-+]?[0-9]+'
+        r'  |[0-9]+\.([eE][-+]?[0-9]+)?'
+        r'  |[0-9]*\.[0-9]+([eE][-+]?[0-9]+)?'
+        r'  )'
+        # infinity
+        r'|\.(?:inf|Inf|INF)'
+        # not a number
+        r'|\.(?:nan|NaN|NAN)'
+        r'))$', re.X)
+"""The YAML 1.2 float format, which the Loader uses instead of PyYAML's."""
 
 
 class String:
